@@ -200,7 +200,7 @@ namespace vf
             return 0;
         }
         static const int t[] = { 0, 1, 2, 3, 4, 7, 16 };
-        return t[s.weighted({ 140, 16, 30, 20, 20, 15, 15 })];
+        return t[s.weighted({ 220, 6, 10, 6, 6, 4, 4 })];
     }
 
     inline std::vector<OpSpec> gen_resolver_program(vg::Src& s, ProgInfo& pi, bool allow_parallel)
